@@ -76,7 +76,7 @@ def run(ctx, driver):
     ctx.sample({"indict": cases[-1]["indict"], "result_kinds": results[-1].get("kinds") if isinstance(results[-1], dict) else None})
     _shared.corr_glue(ctx, driver, cases, results, parts=("iv",))
     ctx.assumptions += [
-        "naming hypothesis: no two (row, column) pairs print to the same __P__<row>__<col> string (false only for contrived variable names such as g__g next to g); stated in the theorems, not met by the generators",
+        "naming: the model identifies a propagator symbol with its (row, column) pair; since the F17 fix the implementation extends a name that is already taken, so two pairs never share a symbol (before it, a second-order variable named d did: found by the generators)",
         "numeric equality of listed parameter values and of initial values is checked by evaluation (SymPy's .n() and str are contracts)",
     ]
 
